@@ -229,6 +229,11 @@ def corpus(ctx):
         trajs = ["never", "from4", "from12"] if any(k in ("Wa", "Al") for k in ks) else ["never"]
         for tr in trajs:
             items.append((f, tr))
+    # a macro as the last scope of the method, followed only by blank/comment lines, and called from a Watch declared earlier
+    M, CA, B, C = ("M", ()), ("CA", ()), ("b", ()), ("c", ())
+    for tail in ((("MA", (M, B)),), (("MA", (M, C, B)),), (("MA", (M,)), B), (("MA", (M,)), C, B)):
+        for tr in ("from4", "from12"):
+            items.append(((("Wa", (CA,)),) + tail, tr))
     for f in pgen.programs(REP_KINDS, 4 if ctx.quick else 5, depth=2):
         if pgen.no_empty_openers(f) and "M" in pgen.kinds_flat(f):
             items.append(("rep", f, None))
